@@ -139,6 +139,13 @@ def get(kind: str) -> Cert:
     from cryptography.hazmat.primitives import serialization
     import base64
 
+    if kind.startswith("chain:"):
+        # "chain:<leaf>:<extra>": the client presents its own leaf followed by another party's certificate
+        _, leaf, extra = kind.split(":")
+        a, b = get(leaf), get(extra)
+        c = Cert(kind.replace(":", "_"), a.der, a.key_pem, a.cert_pem + b.cert_pem)
+        _CACHE[kind] = c
+        return c
     if kind.startswith("hostile"):
         der, key_pem = _resign(kind, _mut_bool if kind == "hostile-bool" else _mut_version)
         pem = b"-----BEGIN CERTIFICATE-----\n" + base64.encodebytes(der) + b"-----END CERTIFICATE-----\n"
